@@ -7,6 +7,7 @@
      Serializer   text of a node under any flag set, judged by the RFC 8259 grammar fold (C02)
      Grammar      a parsed text becomes a tree of fresh nodes denoting Denote(text) (C01)
      Pointer walk the very node a reference-token path reaches (C12); visitor order (C17)
+     Patch        the copying operations add / replace / copy applied in place (C13): fresh nodes, release of the replaced value
    so that a history may build a tree by parsing, mutate it through containers, pointers and patches,
    copy it, serialize the copy, compare both, drop the parent and still read the child: every
    observation is a function of the one abstract state.
